@@ -67,95 +67,101 @@ Notation opt0 := CoefE.opt0.
 Definition tz : triple Cops := t0.
 Definition mz : mat3 Cops := mkM t0 t0 t0.
 
-(* ---- sequences of real operators driven by one variable ---- *)
+(* an (arr, arr0) pair as the generated evolution functions return it *)
+Definition arr2 : Type := (triple Cops * option (triple Cops))%type.
+Definition has0 (a : arr2) : bool := match snd a with Some _ => true | None => false end.
+
+(* ---- sequences of operators driven by one real variable x ----
+   RMv F D p c b : MatrixOp with arrays F(c x + b), derivative arrays D(c x + b) for its parameter p,
+                   declared order1 = {v: {p: c}}           (T, Phi)
+   RAv A D h p c b : ScalarOp with (arr, arr0) = A(c x + b), derivative pair D(c x + b), declared
+                   order1 = {v: {p: c}}; h says whether the operator has a recovery array   (E, P, R)
+   RMc / RAc : constant operators, not differentiated;  RS : 1-D shift with optional nmax *)
 Inductive ritem : Type :=
-| RTc (alpha phi : R)               (* T(alpha, phi), not differentiated *)
-| RTv (c b phi : R)                 (* T(c x + b, phi, order1={v: {"alpha": c}}) *)
-| REc (tau T1 T2 g : R)             (* E(tau, T1, T2, g), not differentiated *)
-| REv (tau T1 g c b : R)            (* E(tau, T1, c x + b, g, order1={v: {"T2": c}}) *)
-| RS (d : Z) (nm : option nat).     (* S(d, nmax=nm) *)
-
-Definition palpha : param := 0%nat.
-Definition pT2 : param := 2%nat.
-
-Definition Earr (tau T1 T2 g : R) : triple Cops := fst (E_op tau T1 T2 g).
-Definition Earr0 (tau T1 T2 g : R) : triple Cops := opt0 (snd (E_op tau T1 T2 g)).
-Definition dEarr (tau T1 T2 g : R) : triple Cops := fst (E_d_T2 tau T1 T2 g).
-Definition dEarr0 (tau T1 T2 g : R) : triple Cops := opt0 (snd (E_d_T2 tau T1 T2 g)).
+| RMc (M : mat3 Cops)
+| RMv (F D : R -> mat3 Cops) (p : param) (c b : R)
+| RAc (A : arr2)
+| RAv (A D : R -> arr2) (h : bool) (p : param) (c b : R)
+| RS (d : Z) (nm : option nat).
 
 (* the operator epgpy applies at parameter value x *)
 Definition real_of (x : R) (it : ritem) : op Cops :=
   match it with
-  | RTc alpha phi => OMatrix (T_op alpha phi) None
-  | RTv c b phi => OMatrix (T_op (c * x + b) phi) None
-  | REc tau T1 T2 g => OScalar (Earr tau T1 T2 g) (Some (Earr0 tau T1 T2 g))
-  | REv tau T1 g c b => OScalar (Earr tau T1 (c * x + b) g) (Some (Earr0 tau T1 (c * x + b) g))
+  | RMc M => OMatrix M None
+  | RMv F D p c b => OMatrix (F (c * x + b)) None
+  | RAc A => OScalar (fst A) (snd A)
+  | RAv A D h p c b => OScalar (fst (A (c * x + b))) (snd (A (c * x + b)))
   | RS d nm => OShift d nm
   end.
 
-(* what (fst, snd) of the translated E_op is: the recovery array is always present *)
-Lemma E_op_some tau T1 T2 g : snd (E_op tau T1 T2 g) = Some (Earr0 tau T1 T2 g).
-Proof. reflexivity. Qed.
-
 Definition fam_of (it : ritem) : fop :=
   match it with
-  | RTc alpha phi => FMatrix (fun _ => T_op alpha phi) None
-  | RTv c b phi => FMatrix (fun x => T_op (c * x + b) phi) None
-  | REc tau T1 T2 g => FScalar (fun _ => Earr tau T1 T2 g) (Some (fun _ => Earr0 tau T1 T2 g))
-  | REv tau T1 g c b => FScalar (fun x => Earr tau T1 (c * x + b) g) (Some (fun x => Earr0 tau T1 (c * x + b) g))
+  | RMc M => FMatrix (fun _ => M) None
+  | RMv F D p c b => FMatrix (fun x => F (c * x + b)) None
+  | RAc A => FScalar (fun _ => fst A) (option_map (fun a _ => a) (snd A))
+  | RAv A D h p c b => FScalar (fun x => fst (A (c * x + b)))
+                         (if h then Some (fun x => opt0 (snd (A (c * x + b)))) else None)
   | RS d nm => FShift d nm
   end.
-
-Lemma inst_fam it x : inst (fam_of it) x = real_of x it.
-Proof. destruct it; reflexivity. Qed.
 
 (* the differentiation operator handed to diff.py's bookkeeping at x0 *)
 Definition dop_of (x0 : R) (v : var) (it : ritem) : dinstr Cops :=
   match it with
-  | RTc alpha phi => DOp (mkDop (LMatrix (T_op alpha phi) None) [] [] [] [] true [])
-  | RTv c b phi =>
-      DOp (mkDop (LMatrix (T_op (c * x0 + b) phi) None)
-                 [(palpha, LMatrix (T_d_alpha (c * x0 + b) phi) None)] []
-                 [(v, [(palpha, RtoC c)])] [] true [])
-  | REc tau T1 T2 g => DOp (mkDop (LScalar (Earr tau T1 T2 g) (Some (Earr0 tau T1 T2 g))) [] [] [] [] true [])
-  | REv tau T1 g c b =>
-      DOp (mkDop (LScalar (Earr tau T1 (c * x0 + b) g) (Some (Earr0 tau T1 (c * x0 + b) g)))
-                 [(pT2, LScalar (dEarr tau T1 (c * x0 + b) g) (Some (dEarr0 tau T1 (c * x0 + b) g)))] []
-                 [(v, [(pT2, RtoC c)])] [] true [])
+  | RMc M => DOp (mkDop (LMatrix M None) [] [] [] [] true [])
+  | RMv F D p c b =>
+      DOp (mkDop (LMatrix (F (c * x0 + b)) None) [(p, LMatrix (D (c * x0 + b)) None)] []
+                 [(v, [(p, RtoC c)])] [] true [])
+  | RAc A => DOp (mkDop (LScalar (fst A) (snd A)) [] [] [] [] true [])
+  | RAv A D h p c b =>
+      DOp (mkDop (LScalar (fst (A (c * x0 + b))) (snd (A (c * x0 + b))))
+                 [(p, LScalar (fst (D (c * x0 + b))) (snd (D (c * x0 + b))))] []
+                 [(v, [(p, RtoC c)])] [] true [])
   | RS d nm => DOp (mkDop (LShift d nm) [] [] [] [] true [])
   end.
 
 (* the 1-jets of the arrays *)
 Definition jet_of (x0 : R) (it : ritem) : op DC :=
   match it with
-  | RTc alpha phi => OMatrix (zipM (T_op alpha phi) mz) None
-  | RTv c b phi => OMatrix (zipM (T_op (c * x0 + b) phi) (@mscale Cops (RtoC c) (T_d_alpha (c * x0 + b) phi))) None
-  | REc tau T1 T2 g => OScalar (zipT (Earr tau T1 T2 g) tz) (Some (zipT (Earr0 tau T1 T2 g) tz))
-  | REv tau T1 g c b =>
-      OScalar (zipT (Earr tau T1 (c * x0 + b) g) (@tscale Cops (RtoC c) (dEarr tau T1 (c * x0 + b) g)))
-              (Some (zipT (Earr0 tau T1 (c * x0 + b) g) (@tscale Cops (RtoC c) (dEarr0 tau T1 (c * x0 + b) g))))
+  | RMc M => OMatrix (zipM M mz) None
+  | RMv F D p c b => OMatrix (zipM (F (c * x0 + b)) (@mscale Cops (RtoC c) (D (c * x0 + b)))) None
+  | RAc A => OScalar (zipT (fst A) tz) (option_map (fun a => zipT a tz) (snd A))
+  | RAv A D h p c b =>
+      OScalar (zipT (fst (A (c * x0 + b))) (@tscale Cops (RtoC c) (fst (D (c * x0 + b)))))
+              (if h then Some (zipT (opt0 (snd (A (c * x0 + b))))
+                                    (@tscale Cops (RtoC c) (opt0 (snd (D (c * x0 + b)))))) else None)
   | RS d nm => OShift d nm
   end.
 
-(* side conditions: relaxation times are not zero where E is differentiated *)
+(* side conditions: D is the derivative of the arrays at the point; the recovery array is present for
+   every parameter value or for none *)
 Definition item_ok (x0 : R) (it : ritem) : Prop :=
   match it with
-  | REv tau T1 g c b => T1 <> 0 /\ c * x0 + b <> 0
+  | RMv F D p c b => derM F (c * x0 + b) (D (c * x0 + b))
+  | RAv A D h p c b => derA A (c * x0 + b) (D (c * x0 + b)) /\ (forall u, has0 (A u) = h) /\
+                       (h = false -> snd (D (c * x0 + b)) = None)
   | _ => True
   end.
 
+Lemma inst_fam x0 it x : item_ok x0 it -> inst (fam_of it) x = real_of x it.
+Proof.
+  destruct it as [M|F D p c b|A|A D h p c b|d nm]; cbn [item_ok fam_of inst real_of]; intros Hok; try reflexivity.
+  - destruct A as [a [a0|]]; reflexivity.
+  - destruct Hok as (_ & Hh & _). specialize (Hh (c * x + b)). unfold has0 in Hh.
+    destruct h; cbn [option_map]; cbv beta; destruct (snd (A (c * x + b))); try discriminate; reflexivity.
+Qed.
+
 Lemma item_jet x0 it : item_ok x0 it -> is_jet x0 (fam_of it) (jet_of x0 it).
 Proof.
-  destruct it as [alpha phi|c b phi|tau T1 T2 g|tau T1 g c b|d nm]; cbn [item_ok fam_of jet_of is_jet ojet]; intros Hok.
+  destruct it as [M|F D p c b|A|A D h p c b|d nm]; cbn [item_ok fam_of jet_of is_jet ojet]; intros Hok.
   - split; auto. apply jetM_zip; [reflexivity|]. exact (derM_const _ x0).
-  - split; auto. apply jetM_zip; [reflexivity|].
-    exact (derM_affine (fun a => T_op a phi) c b x0 _ (T_d_alpha_correct (c * x0 + b) phi)).
-  - split; (apply jetT_zip; [reflexivity|exact (derT_const _ x0)]).
-  - destruct Hok as [H1 H2].
-    destruct (E_d_T2_correct tau T1 (c * x0 + b) g H2) as [D D0].
-    split; (apply jetT_zip; [reflexivity|]).
-    + exact (derT_affine (fun u => fst (E_op tau T1 u g)) c b x0 _ D).
-    + exact (derT_affine (fun u => opt0 (snd (E_op tau T1 u g))) c b x0 _ D0).
+  - split; auto. apply jetM_zip; [reflexivity|]. exact (derM_affine F c b x0 _ Hok).
+  - split; [apply jetT_zip; [reflexivity|exact (derT_const _ x0)]|].
+    destruct (snd A) as [a0|]; cbn [option_map ojet]; auto.
+    apply jetT_zip; [reflexivity|exact (derT_const _ x0)].
+  - destruct Hok as ((Da & Da0) & _ & _). split.
+    + apply jetT_zip; [reflexivity|]. exact (derT_affine (fun u => fst (A u)) c b x0 _ Da).
+    + destruct h; cbn [ojet]; auto.
+      apply jetT_zip; [reflexivity|]. exact (derT_affine (fun u => opt0 (snd (A u))) c b x0 _ Da0).
   - split; reflexivity.
 Qed.
 
@@ -177,46 +183,56 @@ Proof.
   destruct a as [x y z]. unfold mdiag, mscale, tscale. cbn [row0 row1 row2 fp fm fz]. cnorm.
   f_equal; f_equal; ring.
 Qed.
-Lemma mdiag_tz : mdiag tz = DiffExact.mzero Cops. Proof. reflexivity. Qed.
-
 Lemma dM_mdiag_zip (a b : triple Cops) : dvM DC Cops jd (mdiag (zipT a b)) = mdiag b.
 Proof. destruct b. reflexivity. Qed.
+Lemma lmat0_opt (a : triple Cops) (o : option (triple Cops)) : lmat0 Cops (LScalar a o) = mdiag (opt0 o).
+Proof. destruct o; reflexivity. Qed.
 
-Lemma item_pair x0 v it : pair_ok DC Cops jv jd v (jet_of x0 it) (dop_of x0 v it).
+Lemma item_pair x0 v it : item_ok x0 it -> pair_ok DC Cops jv jd v (jet_of x0 it) (dop_of x0 v it).
 Proof.
-  destruct it as [alpha phi|c b phi|tau T1 T2 g|tau T1 g c b|d nm]; cbn [jet_of dop_of pair_ok].
-  - exists (LMatrix (zipM (T_op alpha phi) mz) None). cbn [lin_op map_lin option_map d_lin is_shift d_order1].
+  destruct it as [M|F D p c b|A|A D h p c b|d nm]; cbn [item_ok jet_of dop_of pair_ok]; intros Hok.
+  - exists (LMatrix (zipM M mz) None). cbn [lin_op map_lin option_map d_lin is_shift d_order1].
     rewrite vM_zip. split; [reflexivity|split; [reflexivity|split]].
-    + intros p l H. discriminate H.
+    + intros q l H. discriminate H.
     + intros x e. unfold eff, entries. cbn [d_order1 flat_map fold_left fst snd lmat lmat0].
       rewrite dM_zip. apply lact_eq; reflexivity.
-  - exists (LMatrix (zipM (T_op (c * x0 + b) phi) (@mscale Cops (RtoC c) (T_d_alpha (c * x0 + b) phi))) None).
+  - exists (LMatrix (zipM (F (c * x0 + b)) (@mscale Cops (RtoC c) (D (c * x0 + b)))) None).
     cbn [lin_op map_lin option_map d_lin is_shift d_order1].
     rewrite vM_zip. split; [reflexivity|split; [reflexivity|split]].
-    + intros p l H. cbn [d_darrs alookup] in H. destruct (Nat.eqb p palpha); [|discriminate H]. now injection H as <-.
+    + intros q l H. cbn [d_darrs alookup] in H. destruct (Nat.eqb q p); [|discriminate H]. now injection H as <-.
     + intros x e. unfold eff, entries. cbn [d_order1 flat_map fst snd]. rewrite Nat.eqb_refl.
       cbn [app fold_left]. unfold eff_step. cbn [fst snd d_darrs alookup]. rewrite Nat.eqb_refl.
       cbn [lmat lmat0 fst snd]. rewrite dM_zip.
       apply lact_eq; [now rewrite madd_mzero_l|].
       now rewrite mscale_mzero, madd_mzero_l.
-  - exists (LScalar (zipT (Earr tau T1 T2 g) tz) (Some (zipT (Earr0 tau T1 T2 g) tz))).
-    cbn [lin_op map_lin option_map d_lin is_shift d_order1].
-    rewrite !vT_zip. split; [reflexivity|split; [reflexivity|split]].
-    + intros p l H. discriminate H.
-    + intros x e. unfold eff, entries. cbn [d_order1 flat_map fold_left fst snd lmat lmat0].
-      rewrite !dM_mdiag_zip. apply lact_eq; reflexivity.
-  - exists (LScalar (zipT (Earr tau T1 (c * x0 + b) g) (@tscale Cops (RtoC c) (dEarr tau T1 (c * x0 + b) g)))
-              (Some (zipT (Earr0 tau T1 (c * x0 + b) g) (@tscale Cops (RtoC c) (dEarr0 tau T1 (c * x0 + b) g))))).
-    cbn [lin_op map_lin option_map d_lin is_shift d_order1].
-    rewrite !vT_zip. split; [reflexivity|split; [reflexivity|split]].
-    + intros p l H. cbn [d_darrs alookup] in H. destruct (Nat.eqb p pT2); [|discriminate H]. now injection H as <-.
+  - exists (LScalar (zipT (fst A) tz) (option_map (fun a => zipT a tz) (snd A))).
+    cbn [lin_op map_lin d_lin is_shift d_order1].
+    split; [reflexivity|split; [|split]].
+    + rewrite vT_zip. destruct (snd A) as [a0|]; cbn [option_map]; [now rewrite vT_zip|reflexivity].
+    + intros q l H. discriminate H.
+    + intros x e. unfold eff, entries. cbn [d_order1 flat_map fold_left fst snd lmat].
+      rewrite dM_mdiag_zip. apply lact_eq; [reflexivity|].
+      destruct (snd A) as [a0|]; cbn [option_map lmat0]; [now rewrite dM_mdiag_zip|reflexivity].
+  - destruct Hok as (_ & Hh & Hd). pose proof (Hh (c * x0 + b)) as Hh0. unfold has0 in Hh0.
+    exists (LScalar (zipT (fst (A (c * x0 + b))) (@tscale Cops (RtoC c) (fst (D (c * x0 + b)))))
+              (if h then Some (zipT (opt0 (snd (A (c * x0 + b))))
+                                    (@tscale Cops (RtoC c) (opt0 (snd (D (c * x0 + b)))))) else None)).
+    cbn [lin_op map_lin d_lin is_shift d_order1].
+    split; [reflexivity|split; [|split]].
+    + rewrite vT_zip. destruct h; destruct (snd (A (c * x0 + b))) as [a0|]; try discriminate; cbn [option_map opt0];
+        [now rewrite vT_zip|reflexivity].
+    + intros q l H. cbn [d_darrs alookup] in H. destruct (Nat.eqb q p); [|discriminate H]. now injection H as <-.
     + intros x e. unfold eff, entries. cbn [d_order1 flat_map fst snd]. rewrite Nat.eqb_refl.
       cbn [app fold_left]. unfold eff_step. cbn [fst snd d_darrs alookup]. rewrite Nat.eqb_refl.
-      cbn [lmat lmat0 fst snd]. rewrite !dM_mdiag_zip, !mdiag_tscale.
-      apply lact_eq; now rewrite madd_mzero_l.
+      cbn [lmat fst snd]. rewrite lmat0_opt, dM_mdiag_zip, mdiag_tscale.
+      apply lact_eq; [now rewrite madd_mzero_l|].
+      destruct h; cbn [lmat0].
+      * now rewrite dM_mdiag_zip, mdiag_tscale, madd_mzero_l.
+      * rewrite (Hd eq_refl). cbn [opt0]. change (mdiag (@t0 Cops)) with (DiffExact.mzero Cops).
+        now rewrite mscale_mzero, madd_mzero_l.
   - exists (LShift d nm). cbn [lin_op map_lin d_lin is_shift d_order1 d_darrs].
     split; [reflexivity|split; [reflexivity|split; [|reflexivity]]].
-    intros p l H. discriminate H.
+    intros q l H. discriminate H.
 Qed.
 
 (* ================= the end-to-end statement ================= *)
@@ -229,14 +245,107 @@ Theorem real_sequence_jacobian (x0 : R) (v : var) (items : list ritem) (pd : C) 
 Proof.
   intros Hok ds.
   assert (J : Forall2 (is_jet x0) (map fam_of items) (map (jet_of x0) items)).
-  { induction Hok as [|it its H _ IH]; cbn [map]; constructor; auto. now apply item_jet. }
+  { clear ds. induction Hok as [|it its H _ IH]; cbn [map]; constructor; auto. now apply item_jet. }
   assert (P : Forall2 (pair_ok DC Cops jv jd v) (map (jet_of x0) items) (map (dop_of x0 v) items)).
-  { clear. induction items as [|it its IH]; cbn [map]; constructor; auto. apply item_pair. }
+  { clear ds J. induction Hok as [|it its H _ IH]; cbn [map]; constructor; auto. now apply item_pair. }
   destruct (jacobian_is_derivative x0 v _ _ _ pd J P) as (j & E & D & F).
   assert (R1 : forall x, frun (map fam_of items) x (@init Cops pd) = run (map (real_of x) items) (@init Cops pd)).
-  { intros x. unfold frun. f_equal. rewrite map_map. apply map_ext. intros it. apply inst_fam. }
+  { intros x. unfold frun. f_equal. rewrite map_map.
+    clear - Hok. induction Hok as [|it its H _ IH]; cbn [map]; [reflexivity|].
+    now rewrite IH, (inst_fam x0 it x H). }
   exists j. split; [exact E|split].
   - apply (derC_ext (fun x => f0 Cops (frun (map fam_of items) x (@init Cops pd)))); [|exact D].
     intros t. now rewrite R1.
   - unfold ds. rewrite <- R1. exact F.
+Qed.
+
+(* ================= the real operators, parameter by parameter ================= *)
+(* parameter ranks as in the classes' PARAMETERS lists *)
+Definition iT_const (alpha phi : R) : ritem := RMc (T_op alpha phi).
+Definition iT_alpha (c b phi : R) : ritem := RMv (fun a => T_op a phi) (fun a => T_d_alpha a phi) 0%nat c b.
+Definition iT_phi (alpha c b : R) : ritem := RMv (fun p => T_op alpha p) (fun p => T_d_phi alpha p) 1%nat c b.
+Definition iPhi_phi (c b : R) : ritem := RMv Phi_op Phi_d_phi 0%nat c b.
+Definition iE_const (tau T1 T2 g : R) : ritem := RAc (E_op tau T1 T2 g).
+Definition iE_tau (T1 T2 g c b : R) : ritem := RAv (fun u => E_op u T1 T2 g) (fun u => E_d_tau u T1 T2 g) true 0%nat c b.
+Definition iE_T1 (tau T2 g c b : R) : ritem := RAv (fun u => E_op tau u T2 g) (fun u => E_d_T1 tau u T2 g) true 1%nat c b.
+Definition iE_T2 (tau T1 g c b : R) : ritem := RAv (fun u => E_op tau T1 u g) (fun u => E_d_T2 tau T1 u g) true 2%nat c b.
+Definition iE_g (tau T1 T2 c b : R) : ritem := RAv (fun u => E_op tau T1 T2 u) (fun u => E_d_g tau T1 T2 u) true 3%nat c b.
+Definition iP_const (tau g : R) : ritem := RAc (P_op tau g).
+Definition iP_tau (g c b : R) : ritem := RAv (fun u => P_op u g) (fun u => P_d_tau u g) false 0%nat c b.
+Definition iP_g (tau c b : R) : ritem := RAv (fun u => P_op tau u) (fun u => P_d_g tau u) false 1%nat c b.
+Definition iR_rT (rT_im rL r0 c b : R) : ritem :=
+  RAv (fun u => R_op u rT_im rL r0) (fun u => R_d_rT u rT_im rL r0) true 0%nat c b.
+Definition iR_rL (rT_re rT_im r0 c b : R) : ritem :=
+  RAv (fun u => R_op rT_re rT_im u r0) (fun u => R_d_rL rT_re rT_im u r0) true 1%nat c b.
+Definition iR_r0 (rT_re rT_im rL c b : R) : ritem :=
+  RAv (fun u => R_op rT_re rT_im rL u) (fun u => R_d_r0 rT_re rT_im rL u) true 2%nat c b.
+
+Lemma iT_alpha_ok x0 c b phi : item_ok x0 (iT_alpha c b phi).
+Proof. exact (T_d_alpha_correct (c * x0 + b) phi). Qed.
+Lemma iT_phi_ok x0 alpha c b : item_ok x0 (iT_phi alpha c b).
+Proof. exact (T_d_phi_correct alpha (c * x0 + b)). Qed.
+Lemma iPhi_phi_ok x0 c b : item_ok x0 (iPhi_phi c b).
+Proof. exact (Phi_d_phi_correct (c * x0 + b)). Qed.
+Lemma iE_tau_ok x0 T1 T2 g c b : T1 <> 0 -> T2 <> 0 -> item_ok x0 (iE_tau T1 T2 g c b).
+Proof.
+  intros H1 H2. split; [exact (E_d_tau_correct (c * x0 + b) T1 T2 g H1 H2)|split; [reflexivity|discriminate]].
+Qed.
+Lemma iE_T1_ok x0 tau T2 g c b : c * x0 + b <> 0 -> item_ok x0 (iE_T1 tau T2 g c b).
+Proof.
+  intros H1. split; [exact (E_d_T1_correct tau (c * x0 + b) T2 g H1)|split; [reflexivity|discriminate]].
+Qed.
+Lemma iE_T2_ok x0 tau T1 g c b : c * x0 + b <> 0 -> item_ok x0 (iE_T2 tau T1 g c b).
+Proof.
+  intros H2. split; [exact (E_d_T2_correct tau T1 (c * x0 + b) g H2)|split; [reflexivity|discriminate]].
+Qed.
+Lemma iE_g_ok x0 tau T1 T2 c b : item_ok x0 (iE_g tau T1 T2 c b).
+Proof. split; [exact (E_d_g_correct tau T1 T2 (c * x0 + b))|split; [reflexivity|discriminate]]. Qed.
+Lemma iP_tau_ok x0 g c b : item_ok x0 (iP_tau g c b).
+Proof. split; [exact (P_d_tau_correct (c * x0 + b) g)|split; reflexivity]. Qed.
+Lemma iP_g_ok x0 tau c b : item_ok x0 (iP_g tau c b).
+Proof. split; [exact (P_d_g_correct tau (c * x0 + b))|split; reflexivity]. Qed.
+Lemma iR_rT_ok x0 rT_im rL r0 c b : item_ok x0 (iR_rT rT_im rL r0 c b).
+Proof. split; [exact (R_d_rT_correct (c * x0 + b) rT_im rL r0)|split; [reflexivity|discriminate]]. Qed.
+Lemma iR_rL_ok x0 rT_re rT_im r0 c b : item_ok x0 (iR_rL rT_re rT_im r0 c b).
+Proof. split; [exact (R_d_rL_correct rT_re rT_im (c * x0 + b) r0)|split; [reflexivity|discriminate]]. Qed.
+Lemma iR_r0_ok x0 rT_re rT_im rL c b : item_ok x0 (iR_r0 rT_re rT_im rL c b).
+Proof. split; [exact (R_d_r0_correct rT_re rT_im rL (c * x0 + b))|split; [reflexivity|discriminate]]. Qed.
+
+(* the items a sequence of real operators is made of, with the side condition each needs *)
+Inductive real_item (x0 : R) : ritem -> Prop :=
+| ri_T_const alpha phi : real_item x0 (iT_const alpha phi)
+| ri_T_alpha c b phi : real_item x0 (iT_alpha c b phi)
+| ri_T_phi alpha c b : real_item x0 (iT_phi alpha c b)
+| ri_Phi_phi c b : real_item x0 (iPhi_phi c b)
+| ri_E_const tau T1 T2 g : real_item x0 (iE_const tau T1 T2 g)
+| ri_E_tau T1 T2 g c b : T1 <> 0 -> T2 <> 0 -> real_item x0 (iE_tau T1 T2 g c b)
+| ri_E_T1 tau T2 g c b : c * x0 + b <> 0 -> real_item x0 (iE_T1 tau T2 g c b)
+| ri_E_T2 tau T1 g c b : c * x0 + b <> 0 -> real_item x0 (iE_T2 tau T1 g c b)
+| ri_E_g tau T1 T2 c b : real_item x0 (iE_g tau T1 T2 c b)
+| ri_P_const tau g : real_item x0 (iP_const tau g)
+| ri_P_tau g c b : real_item x0 (iP_tau g c b)
+| ri_P_g tau c b : real_item x0 (iP_g tau c b)
+| ri_R_rT rT_im rL r0 c b : real_item x0 (iR_rT rT_im rL r0 c b)
+| ri_R_rL rT_re rT_im r0 c b : real_item x0 (iR_rL rT_re rT_im r0 c b)
+| ri_R_r0 rT_re rT_im rL c b : real_item x0 (iR_r0 rT_re rT_im rL c b)
+| ri_S d nm : real_item x0 (RS d nm).
+
+Lemma real_item_ok x0 it : real_item x0 it -> item_ok x0 it.
+Proof.
+  intros H. destruct H; try exact I.
+  - apply iT_alpha_ok. - apply iT_phi_ok. - apply iPhi_phi_ok.
+  - now apply iE_tau_ok. - now apply iE_T1_ok. - now apply iE_T2_ok. - apply iE_g_ok.
+  - apply iP_tau_ok. - apply iP_g_ok.
+  - apply iR_rT_ok. - apply iR_rL_ok. - apply iR_r0_ok.
+Qed.
+
+Theorem real_operators_jacobian (x0 : R) (v : var) (items : list ritem) (pd : C) :
+  List.Forall (real_item x0) items ->
+  let ds := drun (map (dop_of x0 v) items) (dinit (@init Cops pd)) in
+  exists j : C, jacobian ds [v] = [j] /\
+    derC (fun x => f0 Cops (run (map (real_of x) items) (@init Cops pd))) x0 j /\
+    f0 Cops (d_main ds) = f0 Cops (run (map (real_of x0) items) (@init Cops pd)).
+Proof.
+  intros H. apply real_sequence_jacobian.
+  induction H as [|it its Hi _ IH]; constructor; auto. now apply real_item_ok.
 Qed.
